@@ -44,6 +44,51 @@ def J(t):
     return App("J", (t,), STR)
 
 
+class Hom(object):
+    """view of a homomorphic spec-function application F(seq, ctx..., heap...)"""
+
+    def __init__(self, t, templates):
+        self.t = t
+        self.rest = t.args[1:]
+        if t.op == "J":
+            self.kind = "str"
+            self.tpl = None
+        else:
+            self.tpl = templates[t.op[4:]]
+            self.kind = self.tpl["kind"]
+
+    def of(self, y):
+        return App(self.t.op, (y,) + tuple(self.rest), self.t.sort)
+
+    def unit(self, x):
+        if self.tpl is None:
+            return x
+        m = {self.tpl["x"]: x}
+        names = self.tpl["ctx"] + [h for k, h in self.tpl["heap"]]
+        for n, a in zip(names, self.rest):
+            m[n] = a
+        return subst(self.tpl["template"], m)
+
+    def plus(self, *xs):
+        if self.kind == "int":
+            r = xs[0]
+            for x in xs[1:]:
+                r = Add(r, x)
+            return r
+        return Concat(*xs)
+
+    def zero(self):
+        if self.kind == "int":
+            return I(0)
+        if self.kind == "str":
+            return S("")
+        return T("#empty", (), self.t.sort)
+
+
+def is_hom(t):
+    return t.op == "J" or t.op.startswith("hom_")
+
+
 _names_cache = {}
 
 
@@ -66,7 +111,8 @@ def positive_in(q, terms):
     return True
 
 
-def instantiate(terms, rounds=3):
+def instantiate(terms, rounds=3, templates=None):
+    templates = templates or {}
     """terms: list of T (assumptions + goal). returns list of lemma instances (T Bool)."""
     out = []
     seen_inst = set()
@@ -92,40 +138,49 @@ def instantiate(terms, rounds=3):
             # never instantiate on terms that mention a bound variable
             allsub = {k: t for k, t in allsub.items() if t.op in ("#forall", "#exists") or not (bound & set(_names(t)))}
         new = []
-        jterms = [t for t in allsub.values() if t.op == "J"]
-        # structural J rules, recursively
-        stack = [t.args[0] for t in jterms]
+        jterms = [t for t in allsub.values() if is_hom(t)]
+        # structural rules for homomorphic spec functions, recursively
+        stack = [(Hom(t, templates), t.args[0]) for t in jterms]
         by_base = {}
+        by_range = {}
         while stack:
-            x = stack.pop()
-            kx = str(x)
+            h, x = stack.pop()
+            kx = str(h.of(x))
+            fx = h.of(x)
             if kx in done_J:
                 if x.op in ("seq.extract",):
-                    by_base.setdefault(str(x.args[0]), (x.args[0], {}))[1][kx] = x
+                    by_base.setdefault((str(x.args[0]), str(h.of(x.args[0]))), (x.args[0], h, {}))[2][kx] = x
+                if x.op == "irange":
+                    by_range.setdefault(str(h.of(x.args[0])) + "|" + str(x.args[0]), (h, {}))[1][kx] = x
                 continue
             done_J.add(kx)
             if x.op == "#empty":
-                new.append(Eq(J(x), S("")))
+                new.append(Eq(fx, h.zero()))
             elif x.op == "seq.unit":
-                new.append(Eq(J(x), x.args[0]))
+                new.append(Eq(fx, h.unit(x.args[0])))
             elif x.op == "seq.++":
-                new.append(Eq(J(x), Concat(*[J(a) for a in x.args])))
-                stack.extend(x.args)
+                new.append(Eq(fx, h.plus(*[h.of(a) for a in x.args])))
+                stack.extend((h, a) for a in x.args)
             elif x.op == "ite":
-                new.append(Eq(J(x), Ite(x.args[0], J(x.args[1]), J(x.args[2]))))
-                stack.extend(x.args[1:])
+                new.append(Eq(fx, Ite(x.args[0], h.of(x.args[1]), h.of(x.args[2]))))
+                stack.extend((h, a) for a in x.args[1:])
             elif x.op == "seq.extract":
-                by_base.setdefault(str(x.args[0]), (x.args[0], {}))[1][kx] = x
+                by_base.setdefault((str(x.args[0]), str(h.of(x.args[0]))), (x.args[0], h, {}))[2][kx] = x
                 s, a, n = x.args
-                new.append(Implies(Or(Le(n, I(0)), Lt(a, I(0)), Ge(a, Len(s))), Eq(J(x), S(""))))
-                new.append(Implies(And(Le(I(0), a), Lt(a, Len(s)), Eq(n, I(1))), Eq(J(x), Nth(s, a))))
-                new.append(Implies(And(Eq(a, I(0)), Ge(n, Len(s))), Eq(J(x), J(s))))
+                new.append(Implies(Or(Le(n, I(0)), Lt(a, I(0)), Ge(a, Len(s))), Eq(fx, h.zero())))
+                new.append(Implies(And(Le(I(0), a), Lt(a, Len(s)), Eq(n, I(1))), Eq(fx, h.unit(Nth(s, a)))))
+                new.append(Implies(And(Eq(a, I(0)), Ge(n, Len(s))), Eq(fx, h.of(s))))
+            elif x.op == "irange":
+                by_range.setdefault(str(h.of(x.args[0])) + "|" + str(x.args[0]), (h, {}))[1][kx] = x
+                a, b2 = x.args
+                new.append(Implies(Le(b2, a), Eq(fx, h.zero())))
+                new.append(Implies(Eq(b2, Add(a, I(1))), Eq(fx, h.unit(a))))
         # rules on extracts of the same base
-        for bs, (s, exts) in by_base.items():
+        for bs, (s, h, exts) in by_base.items():
             es = list(exts.values())[:12]
             for e1 in es:
                 a1, n1 = e1.args[1], e1.args[2]
-                k = ("part", str(e1))
+                k = ("part", str(h.of(e1)))
                 if k not in done_other and not (a1.op == "#int" and a1.val == 0):
                     done_other.add(k)
                     # partition: s = s[:a] ++ s[a:a+n] ++ s[a+n:]
@@ -133,7 +188,7 @@ def instantiate(terms, rounds=3):
                     new.append(
                         Implies(
                             And(Le(I(0), a1), Le(I(0), n1)),
-                            Eq(J(s), Concat(J(Extract(s, I(0), a1)), J(e1), J(Extract(s, end, Sub(Len(s), end))))),
+                            Eq(h.of(s), h.plus(h.of(Extract(s, I(0), a1)), h.of(e1), h.of(Extract(s, end, Sub(Len(s), end))))),
                         )
                     )
                 for e2 in es:
@@ -142,7 +197,7 @@ def instantiate(terms, rounds=3):
                     a2, n2 = e2.args[1], e2.args[2]
                     if str(a1) != str(a2):
                         continue
-                    k = ("pre", str(e1), str(e2))
+                    k = ("pre", str(h.of(e1)), str(h.of(e2)))
                     if k in done_other:
                         continue
                     done_other.add(k)
@@ -151,9 +206,32 @@ def instantiate(terms, rounds=3):
                     new.append(
                         Implies(
                             And(Le(I(0), a1), Le(I(0), n1), Le(n1, n2)),
-                            Eq(J(e2), Concat(J(e1), J(mid))),
+                            Eq(h.of(e2), h.plus(h.of(e1), h.of(mid))),
                         )
                     )
+        # integer ranges with a common start
+        for key, (h, rs) in by_range.items():
+            es = list(rs.values())[:10]
+            for r1 in es:
+                for r2 in es:
+                    if r1 is r2:
+                        continue
+                    k = ("rng", str(h.of(r1)), str(h.of(r2)))
+                    if k in done_other:
+                        continue
+                    done_other.add(k)
+                    a, b1 = r1.args
+                    b2 = r2.args[1]
+                    mid = App("irange", (b1, b2), r1.sort)
+                    new.append(Implies(And(Le(a, b1), Le(b1, b2)), Eq(h.of(r2), h.plus(h.of(r1), h.of(mid)))))
+        for t in allsub.values():
+            if t.op == "irange":
+                k = ("irange", str(t))
+                if k in done_other:
+                    continue
+                done_other.add(k)
+                a, b2 = t.args
+                new.append(Eq(Len(t), Ite(Ge(b2, a), Sub(b2, a), I(0))))
         # string class predicates
         for t in allsub.values():
             if t.op in ("isspace", "isdigit"):
@@ -219,6 +297,23 @@ def instantiate(terms, rounds=3):
                     new.append(Implies(And(Le(I(0), a), Le(I(0), k), Lt(k, n), Lt(Add(a, k), Len(s0))), Eq(t, Nth(s0, Add(a, k)))))
                 elif x.op == "ite":
                     new.append(Eq(t, Ite(x.args[0], Nth(x.args[1], k), Nth(x.args[2], k))))
+                elif x.op == "irange":
+                    new.append(Implies(And(Le(I(0), k), Lt(k, Sub(x.args[1], x.args[0]))), Eq(t, Add(x.args[0], k))))
+        # elements of a filter satisfy the filter's predicate (filter-shaped homs: unit = ite(P(x), [x], []))
+        for t in list(allsub.values()):
+            if t.op == "seq.nth" and t.args[0].op.startswith("hom_"):
+                kk = ("filt-elem", str(t))
+                if kk in done_other:
+                    continue
+                done_other.add(kk)
+                h = Hom(t.args[0], templates)
+                tp = h.tpl["template"]
+                if tp.op == "ite" and tp.args[1].op == "seq.unit" and str(tp.args[1].args[0]) == h.tpl["x"] and tp.args[2].op == "#empty":
+                    u = h.unit(t)  # ite(P(t), [t], [])
+                    if u.op == "ite":
+                        new.append(Implies(And(Le(I(0), t.args[1]), Lt(t.args[1], Len(t.args[0]))), u.args[0]))
+                    elif u.op == "seq.unit":
+                        pass
         # reverse (uninterpreted rev_*): length and element facts at the index terms of the VC
         idx_terms = {}
         bound = set(t.args[0].args[0] for t in allsub.values() if t.op in ("#forall", "#exists"))
